@@ -51,6 +51,9 @@ def cases(draw, strategy, concurrent):
     recv = []
     for _ in range(draw(st.integers(2, 10))):
       recv.append(store() if draw(st.integers(0, 6)) else wait())
+    if draw(st.integers(0, 4)) == 0:
+      # another component of the same daemon (a send queue, with RELAY_CACHE_METRICS) announces "full"
+      recv.insert(draw(st.integers(0, len(recv))), ['full_elsewhere'])
     writer = []
     for _ in range(draw(st.integers(1, 8))):
       writer.append(['drain'] if draw(st.integers(0, 5)) else wait())
@@ -61,6 +64,8 @@ def cases(draw, strategy, concurrent):
     for _ in range(draw(st.integers(3, 50))):
       k = draw(st.integers(0, 9))
       ops.append(['drain'] if k < 3 else (wait() if k == 3 and lag else store()))
+    if draw(st.integers(0, 4)) == 0:
+      ops.insert(draw(st.integers(0, len(ops))), ['full_elsewhere'])
     programs = [ops, []]
     switches = []
   case = {'strategy': strategy, 'programs': programs, 'switches': switches, 'lag': lag,
@@ -160,7 +165,9 @@ def execute(ctx, case):
     exhaust['ops'] = ops
 
   bad = []
-  run = cachesim.run_case(case, on_point=c02.size_invariant(ctx, case, bad), post=post)
+  b = env.bootstrap()
+  run = cachesim.run_case(case, on_point=c02.size_invariant(ctx, case, bad), post=post,
+                          extra_ops={'full_elsewhere': lambda run_, sched_, spec_: b.events.cacheFull()})
   if run.aborted:
     ctx.fail('C17:%s' % run.aborted, 'scheduled run aborted: %s' % run.aborted, case)
     return
@@ -202,6 +209,8 @@ def execute(ctx, case):
     skipped = bool(nones) and any(d.result[0] is not None and d.inv > nones[0].resp for d in drains)
   classes = [strategy, 'lag=%s' % lag, 'bounded' if hard is not None else 'unbounded',
              'concurrent' if case['programs'][1] else 'sequential']
+  if any(o[0] == 'full_elsewhere' for pr in case['programs'] for o in pr):
+    classes.append('"cache full" announced by another component')
   if overlap:
     classes.append('store overlaps drain')
   if restored:
